@@ -299,6 +299,16 @@ var c18Pool = []string{
 	"select ?s from ?g where {?s ?p ?o} limit \"1.5\"^^type:float64;",
 }
 
+// c18ValidPool is the number of leading pool statements that are valid BQL.
+var c18ValidPool = func() int {
+	for i, s := range c18Pool {
+		if s == "select ?zz from ?g where {?s ?p ?o};" {
+			return i
+		}
+	}
+	return 0
+}()
+
 type c18Seq struct {
 	Stmts []string `json:"stmts"`
 }
@@ -435,6 +445,15 @@ func checkC18Seq(ctx *pbt.Ctx, c c18Seq) error {
 		if fpan != nil {
 			ctx.Label("fresh-parser-panics(C08)")
 			return nil // C08's subject; the sequence cannot be judged further
+		}
+		if ferr != nil {
+			// the valid pool statements are written in the forms the documentation and the
+			// repository's own examples use: each is a whole statement of the language
+			for _, v := range c18Pool[:c18ValidPool] {
+				if v == s {
+					return fmt.Errorf("statement %d %q, written in documented forms only, is rejected by a fresh parser: %v", i, s, ferr)
+				}
+			}
 		}
 		mismatch := ""
 		switch {
